@@ -75,10 +75,16 @@ Proof. exact (dec_onto_zero_is_dec_l Msgpack raft_schema w (TStruct n)). Qed.
 Lemma all_some_map {A B} (f : A -> B) (g : B -> option A) l : (forall x, g (f x) = Some x) -> all_some (map g (map f l)) = Some l.
 Proof. intros H. induction l as [|x r IH]; [reflexivity|]. cbn. now rewrite H, IH. Qed.
 
+(* The order of the Pin fields in the generated table is computed here, not written down: the proof goes through for whatever
+   order the source declares them in (layouts_ok says they are the fifteen, each once). *)
 Lemma val_to_pin_to_val p : val_to_pin (pin_to_val p) = Some p.
 Proof.
-  destruct p as [[rn rx nm md sh ua ex me pu og] ci ty al dp rf]. unfold pin_to_val, val_to_pin. cbn [popts pcid ptype allocs maxdepth reference
+  destruct p as [[rn rx nm md sh ua ex me pu og] ci ty al dp rf]. unfold pin_to_val, val_to_pin, pin_canon_vals.
+  cbn [popts pcid ptype allocs maxdepth reference
     rmin rmax name mode shard_size user_allocs expire metadata pin_update origins].
+  let v := eval vm_compute in pin_schema_names in
+    (assert (E : pin_schema_names = v) by (vm_compute; reflexivity)); rewrite !E.
+  unfold pin_go_names, reorder. cbn. 
   rewrite (all_some_map VPeer peer_of ua) by reflexivity.
   rewrite (all_some_map (fun kv : string * string => (fst kv, VStr (snd kv))) meta_of me) by (intros [k v]; reflexivity).
   rewrite (all_some_map (fun a => VAddr (Some a)) addr_of og) by reflexivity.
